@@ -51,7 +51,7 @@ package goat
 //@   nopanic[C12.nopanic]
 //@   ctxaware[C10.read_loop_escapes]
 //@   requires rpc != nil && rpc.Header != nil
-//@   atcall[C06.reset_shape C12.reset_for_unknown C16.return_route] send :
+//@   atcall[C06.reset_shape C12.reset_for_unknown C16.return_route C14.reset_ends_the_stream_at_the_caller C07.reset_ends_the_stream_at_the_caller] send :
 //@     | arg0 == h.writeChan && arg1 != nil && arg1.Id == rpc.Id && arg1.Reset_ != nil && arg1.Reset_.Type == "RST_STREAM" && arg1.Trailer != nil && arg1.Body == nil && arg1.Status == nil
 //@     | && arg1.Header != nil && arg1.Header.Method == rpc.Header.Method && arg1.Header.Source == rpc.Header.Destination && arg1.Header.Destination == rpc.Header.Source
 //@   ensures[C06.reset_once C12.reset_for_unknown] result == nil ==> ncalls("send") == old(ncalls("send")) + 1
@@ -96,6 +96,7 @@ package goat
 //@   requires parent != nil && h != nil
 //@   loop 0 invariant[C08.first_valid_timeout_wins] forall j Int :: 0 <= j && j <= rangeindex ==> !(lower(h.Headers[j].Key) == "grpc-timeout" && G(h.Headers[j].Value))
 //@   ensures[C12.ctx_always_usable C10.ctx_descends C07.ctx_descends] result.0 != nil && result.1 != nil && desc(result.0, parent) && cancels(result.1) == result.0
+//@   ensures[C04.request_metadata_reaches_the_handler_context] result.2 == nil ==> bound("md") && ctx_md_in(result.0) == md
 //@   ensures[C08.no_deadline_without_header] result.2 == nil && (forall j Int :: 0 <= j && j < len(h.Headers) ==> !(lower(h.Headers[j].Key) == "grpc-timeout" && DU(h.Headers[j].Value))) ==> ctx_newdl(result.0) == ctx_newdl(parent) && ctx_hasdl(result.0) == ctx_hasdl(parent)
 //@   ensures[C08.deadline_from_header] result.2 == nil && (exists j Int :: 0 <= j && j < len(h.Headers) && lower(h.Headers[j].Key) == "grpc-timeout" && G(h.Headers[j].Value)) ==> ctx_hasdl(result.0) && ctx_newdl(result.0)
 //@   ensures[C08.timeout_is_header_value] result.2 == nil && ctx_newdl(result.0) && !ctx_newdl(parent) ==> (exists j Int :: 0 <= j && j < len(h.Headers) && lower(h.Headers[j].Key) == "grpc-timeout" && DU(h.Headers[j].Value) && ctx_timeout(result.0) == timeoutNs(h.Headers[j].Value))
@@ -231,6 +232,9 @@ package goat
 //@   requires ctx != nil
 //@   loop 0 invariant[C17.failed_connection_removed C16.failed_connection_removed] bound("cmd") && cmd.rpc == nil && cmd.err != nil ==>
 //@     | aftercall("sync.Mutex).Unlock", !(cmd.id in p.clients && p.clients[cmd.id] == cmd.client))
+//@   loop 0 invariant[C17.every_failure_reported] bound("cmd") && cmd.rpc == nil && cmd.err != nil && p.clientDisconnect != nil ==>
+//@     | ncalls("fnfield:H.goat.Proxy.clientDisconnect") == iterstart(0, ncalls("fnfield:H.goat.Proxy.clientDisconnect")) + 1
+//@   atcall[C17.failure_reported_with_its_name_and_error] fnfield:H.goat.Proxy.clientDisconnect : arg0 == cmd.id && arg1 == cmd.err
 //@   atcall[C17.remove_only_failed_connection] builtin delete : bound("cmd") && cmd.client != nil && p.clients[cmd.id] == cmd.client
 //@   atcall[C17.forward_under_senders_name C16.forward_under_senders_name] goat.(*Proxy).forwardRpc : arg1 == cmd.id && arg2 == cmd.rpc
 
@@ -319,6 +323,11 @@ package goat
 // ---------------------------------------------------------------------------------
 // shipped transports: websocket, HTTP
 
+// the adapter only wraps the connection: it configures nothing on it (limits are the caller's)
+//@ func goat.NewGoatOverWebsocket
+//@   ensures[C19.ws_adapter_leaves_the_connection_alone] ncalls("(*github.com/coder/websocket.Conn).SetReadLimit") == old(ncalls("(*github.com/coder/websocket.Conn).SetReadLimit"))
+//@   ensures[C19.ws_adapter_wraps_the_connection] result != nil && result.conn == ws
+
 //@ func goat.(*goatOverWebsocket).Read
 //@   nopanic[C19.nopanic]
 //@   requires ws != nil && ws.conn != nil && ctx != nil
@@ -332,6 +341,7 @@ package goat
 //@   requires ws != nil && ws.conn != nil && ctx != nil
 //@   atcall[C19.ws_writes_binary_marshalled] (*github.com/coder/websocket.Conn).Write : arg1 == ctx && arg2 == 2 && arg3 == data
 //@   atcall[C19.ws_marshals_the_envelope] google.golang.org/protobuf/proto.Marshal : ifacePayload(arg0) == pkt
+//@   ensures[C19.ws_every_marshalled_envelope_is_written] bound("err") && lastret("protobuf/proto.Marshal").1 == nil ==> ncalls("(*github.com/coder/websocket.Conn).Write") == old(ncalls("(*github.com/coder/websocket.Conn).Write")) + 1 && result == lastret("websocket.Conn).Write")
 //@   ensures[C19.ws_write_once] result == nil ==> ncalls("(*github.com/coder/websocket.Conn).Write") == old(ncalls("(*github.com/coder/websocket.Conn).Write")) + 1
 
 //@ objinv[C19.objinv] goat.GoatOverHttp : self.ctx != nil && self.conns.value != nil && self.onConnect != nil && self.sourceToAddress != nil && self.clock != nil && self.cancel != nil
@@ -449,7 +459,7 @@ package goat
 //@   loop 0 invariant[C20.begin_once_per_handler] ctx != nil && ncalls("HandleRPC:*google.golang.org/grpc/stats.Begin") == old(ncalls("HandleRPC:*google.golang.org/grpc/stats.Begin")) + rangeindex + 1
 //@   loop 0 invariant[C20.begin_once_per_handler] ncalls("HandleRPC:*google.golang.org/grpc/stats.End") == old(ncalls("HandleRPC:*google.golang.org/grpc/stats.End"))
 //@   loop 1 invariant[C20.begin_once_per_handler] ncalls("HandleRPC:*google.golang.org/grpc/stats.End") == loopentry(1, ncalls("HandleRPC:*google.golang.org/grpc/stats.End")) && ncalls("HandleRPC:*google.golang.org/grpc/stats.Begin") == loopentry(1, ncalls("HandleRPC:*google.golang.org/grpc/stats.Begin"))
-//@   ensures[C14.released_on_failed_open] result.1 != nil && bound("beginTime") ==> !(id in cc.mp.handlers)
+//@   ensures[C14.released_on_failed_open C11.released_on_failed_open C05.released_on_failed_open] result.1 != nil && bound("beginTime") ==> !(id in cc.mp.handlers)
 //@   ensures[C20.begin_once_end_on_failure] bound("beginTime") ==> ncalls("HandleRPC:*google.golang.org/grpc/stats.Begin") == old(ncalls("HandleRPC:*google.golang.org/grpc/stats.Begin")) + len(cc.statsHandlers)
 //@   ensures[C20.begin_once_end_on_failure] bound("beginTime") && result.1 != nil ==> ncalls("HandleRPC:*google.golang.org/grpc/stats.End") == old(ncalls("HandleRPC:*google.golang.org/grpc/stats.End")) + len(cc.statsHandlers)
 //@   ensures[C20.begin_once_end_on_failure] result.1 == nil ==> ncalls("HandleRPC:*google.golang.org/grpc/stats.End") == old(ncalls("HandleRPC:*google.golang.org/grpc/stats.End"))
